@@ -61,7 +61,10 @@ def cases(kinds):
             c = {"kind": "seeded", "id": "seeded-" + d, "patch": os.path.join(sd, d, "patch.diff"), "what": meta.get("summary", "")[:140]}
             c["expect"] = meta.get("expect") or {}
             if meta.get("own_property_miss"):
-                c["silent"] = [meta["property"]]
+                if meta["property"] in (meta.get("declines") or []):
+                    c["may_break"] = list(meta["declines"])     # the check answers ANALYSIS-BROKEN with a reason: allowed, a violation is not
+                else:
+                    c["silent"] = [meta["property"]]
                 c["miss"] = meta["own_property_miss"]
             out.append(c)
     if "mutant" in kinds:
